@@ -216,17 +216,26 @@ func genLookups(g *G) {
 	g.in("lookup-known-and-boundaries")
 	for _, c := range []int{-65529, -1, 0, 1, 2, 3, 4, 5, 6, 7, 8, 9, 10, 11, 12, 13, 20, 21, 255, 256, 65279, 65280, 65534, 65535, 65536, 65543, 1 << 20} {
 		g.emit("lookup", itoa(c))
+		if c >= 0 && c < 65536 {
+			g.emit("!useSizes", itoa(c))
+		}
 	}
 	if g.quick() {
 		g.in("lookup-random")
 		for i := 0; i < 3000; i++ {
 			g.emit("lookup", itoa(g.R.intn(65536)))
 		}
+		for i := 0; i < 300; i++ {
+			g.emit("!useSizes", itoa(g.R.intn(65536)))
+		}
 		return
 	}
 	g.in("lookup-exhaustive")
 	for c := 0; c < 65536; c++ {
 		g.emit("lookup", itoa(c))
+	}
+	for c := 0; c < 65536; c += 1 + g.R.intn(7) {
+		g.emit("!useSizes", itoa(c))
 	}
 }
 
